@@ -23,7 +23,7 @@ from .tlc import (MachineryError, Scratch, TLCResult, require_ok, run_tlc, write
 EVIDENCE_DIR = os.path.join(VERIF, "evidence")
 REPLAY_DIR = os.path.join(VERIF, "replays")
 KNOWN_PATH = os.path.join(VERIF, "known_findings.json")
-NCPU = os.cpu_count() or 4
+NCPU = int(os.environ.get("VERIF_WORKERS", "0") or 0) or os.cpu_count() or 4
 
 
 def load_known(prop_id):
